@@ -529,6 +529,8 @@ class Context:
         :param rdds: Iterable of RDDs.
         :rtype: RDD
         """
+        # the iterable is read twice: it may be a generator
+        rdds = list(rdds)
         if all(isinstance(rdd, EmptyRDD) for rdd in rdds):
             return EmptyRDD(self)
 
